@@ -58,13 +58,13 @@ def run_shard(spec):
             ops.append(op)
             if f:
                 bad = True
-                if not (f["kind"] == "mismatch" and kf.is_open("KF1", ID) and mgrmon.has_structural_cycle(ls.runner.mgr)):
+                if not (f["kind"] == "mismatch" and kf.is_open("KF1", ID) and mgrmon.shadow_structural_cycle(hg.shadow, ls.runner)):
                     violations.append({"what": "C13 history (C01 oracle) failed: %s" % (f,), "world": hg.world, "ops": ops})
                 break
         if bad or not hg.shadow.defs:
             continue
         real = ls.runner
-        if mgrmon.has_structural_cycle(real.mgr):
+        if mgrmon.shadow_structural_cycle(hg.shadow, real):
             counters["skipped_structural_cycle"] = counters.get("skipped_structural_cycle", 0) + 1
             continue
         twin = P.Runner(hg.world)
